@@ -5,6 +5,7 @@ use serde_json::{json, Value};
 
 mod c07;
 mod c03;
+mod c05;
 mod c08;
 mod c12;
 mod c18;
@@ -42,6 +43,9 @@ fn run(name: &str, args: &Value) -> Value {
         "c12_ws_batch" => c12::ws_batch(args),
         "c03_fast_reply" => c03::fast_reply(args),
         "c03_subid_collision" => c03::subid_collision(args),
+        "c05_array_vs_single" => c05::array_vs_single(args),
+        "c05_close_in_array" => c05::close_in_array(args),
+        "c05_drop_full_queue" => c05::drop_full_queue(args),
         "c08_append" => c08::append(args),
         "c08_response" => c08::response(args),
         other => {
